@@ -757,14 +757,29 @@ func respExec(db map[string]*respVal, name string, a [][]byte) respReply {
 		}
 		keys := respSortedKeys(db)
 		out := []respReply{}
-		i := cur
-		for ; i < int64(len(keys)) && i < cur+count; i++ {
+		// Redis may return no element at all with a non-zero cursor (COUNT is a hint, MATCH filters afterwards, the
+		// table may be sparse).  The stand-in makes that the rule rather than the exception: the first call of an
+		// iteration (cursor 0) over a non-empty key space returns an empty page; real positions are offset by
+		// scanBase.  A caller must go on until the cursor comes back as 0.
+		const scanBase = int64(1) << 32
+		if cur == 0 {
+			if len(keys) == 0 {
+				return rArr([]respReply{rBulk([]byte("0")), rArr(out)})
+			}
+			return rArr([]respReply{rBulk([]byte(strconv.FormatInt(scanBase, 10))), rArr(out)})
+		}
+		if cur < scanBase {
+			return rErr("ERR invalid cursor")
+		}
+		pos := cur - scanBase
+		i := pos
+		for ; i < int64(len(keys)) && i < pos+count; i++ {
 			if pat == nil || respGlob(pat, []byte(keys[i])) {
 				out = append(out, rBulk([]byte(keys[i])))
 			}
 		}
-		next := i
-		if next >= int64(len(keys)) {
+		next := scanBase + i
+		if i >= int64(len(keys)) {
 			next = 0
 		}
 		return rArr([]respReply{rBulk([]byte(strconv.FormatInt(next, 10))), rArr(out)})
